@@ -110,9 +110,37 @@ def find(tree, cls, name):
     return hits
 
 
+CLASSES = [("radioactivedecay/inventory.py", "AbstractInventory"), ("radioactivedecay/inventory.py", "Inventory"),
+           ("radioactivedecay/inventory.py", "InventoryHP"), ("radioactivedecay/decaydata.py", "DecayData"),
+           ("radioactivedecay/decaydata.py", "DecayMatricesScipy"), ("radioactivedecay/decaydata.py", "DecayMatricesSympy"),
+           ("radioactivedecay/nuclide.py", "Nuclide"), ("radioactivedecay/converters.py", "UnitConverterFloat"),
+           ("radioactivedecay/converters.py", "UnitConverterSympy"), ("radioactivedecay/converters.py", "QuantityConverterFloat"),
+           ("radioactivedecay/converters.py", "QuantityConverterSympy")]
+
+
+def members(tree, cls):
+    """names defined in a class body and its base classes: an ADDED override changes behaviour without touching any recorded function"""
+    for st in tree.body:
+        if isinstance(st, ast.ClassDef) and st.name == cls:
+            names = []
+            for b in st.body:
+                if isinstance(b, (ast.FunctionDef, ast.AsyncFunctionDef)):
+                    names.append(b.name + "()" + "".join("@" + ast.unparse(d) for d in b.decorator_list))
+                elif isinstance(b, ast.Assign):
+                    names += [ast.unparse(t) for t in b.targets]
+                elif isinstance(b, ast.AnnAssign):
+                    names.append(ast.unparse(b.target))
+            return "bases=" + ",".join(ast.unparse(x) for x in st.bases) + " | " + " ".join(sorted(names))
+    return None
+
+
 def current():
     out = {}
     trees = {}
+    for f, cls in CLASSES:
+        if f not in trees:
+            trees[f] = ast.parse(open(os.path.join(REPO, f), encoding="utf-8").read())
+        out[f"{f}::{cls}::<members>"] = members(trees[f], cls)
     for f, cls, name, _ in TARGETS:
         if f not in trees:
             trees[f] = ast.parse(open(os.path.join(REPO, f), encoding="utf-8").read())
@@ -139,7 +167,14 @@ def main():
             bad.append(f"{key}: no recorded shape")
         elif rec[key] != cur[key]:
             bad.append(f"{key} changed (hand model: {model})")
-    print("SHAPES " + json.dumps({"checked": len(TARGETS), "changed": bad}))
+    for f, cls in CLASSES:
+        key = f"{f}::{cls}::<members>"
+        if key not in rec:
+            bad.append(f"{key}: no recorded member list")
+        elif rec[key] != cur[key]:
+            was, now = set((rec[key] or "").split()), set((cur[key] or "").split())
+            bad.append(f"{key} changed (added: {sorted(now - was)[:6]}, removed: {sorted(was - now)[:6]})")
+    print("SHAPES " + json.dumps({"checked": len(TARGETS) + len(CLASSES), "changed": bad}))
     return 0
 
 
